@@ -255,6 +255,34 @@ theorem TRel.get (hε : 0 ≤ ε) (hfl : ∀ a, RelErr ε 1 a (fl a)) {k : Nat} 
     · simp only [if_neg hi]
       exact ih
 
+/-- the majorant lists the indices of the exact tensor, so it is well-formed when that one is -/
+theorem TRel.wfM {k : Nat} {E R M : NdSparse F} (h : TRel ε k E R M) (hwf : E.WF) : M.WF := by
+  obtain ⟨rE, lE⟩ := E
+  obtain ⟨rR, lR⟩ := R
+  obtain ⟨rM, lM⟩ := M
+  have he := h.ents
+  have hr : rM = rE := h.rM
+  subst hr
+  simp only at he
+  unfold NdSparse.WF at hwf ⊢
+  simp only at hwf ⊢
+  clear h
+  induction he with
+  | nil => intro e he; simp at he
+  | @cons i v w m lE lR lM _ _ ih =>
+    intro e he
+    rcases List.mem_cons.mp he with rfl | he'
+    · exact hwf (i, v) (by simp)
+    · exact ih (fun e' he'' => hwf e' (by simp [he''])) e he'
+
+/-- an exactly known tensor: the rounded run starts from the same values, the majorant from their magnitudes -/
+theorem TRel.ofExact (a : NdSparse F) : TRel ε 0 a a ⟨a.ranges, a.entries.map fun e => (e.1, |e.2|)⟩ := by
+  refine ⟨rfl, rfl, ?_⟩
+  simp only
+  induction a.entries with
+  | nil => exact .nil
+  | cons e es ih => exact .cons ⟨by simp [gfac], le_refl _⟩ ih
+
 /-! ## one slice multiplication -/
 
 theorem sliceMultiply_eq_some' {α : Type} [A : Arith α] (a : NdSparse α) (b : Mat α) (dim : Nat)
